@@ -450,7 +450,12 @@ class GridFlow(WidgetWrap[Pile], WidgetContainerMixin, WidgetContainerListConten
         else:
             col_focus_position = 0
         # pad.first_position was set by generate_display_widget() above
-        self.focus_position = pile_focus.first_position + col_focus_position
+        position = pile_focus.first_position + col_focus_position
+        if position >= len(self.contents):
+            # the contents were edited while the display widget handled the event (a button that removes its own
+            # cell): its focus is out of date, the focus kept by the contents list is the valid one
+            return
+        self.focus_position = position
 
     def keypress(
         self,
